@@ -199,3 +199,31 @@ Theorem C02_digit_rs_matches_model w : 0 < w ->
   (forall low high rhs, digit_ok w low -> digit_ok w high -> DigitGen.div_rem_wide w low high rhs = div_rem_wide w low high rhs).
 Proof. exact (digit_rs_matches_model w). Qed.
 Print Assumptions C02_digit_rs_matches_model.
+
+(* ---- tie to the source: the glue layer (mul and pow projections) REGENERATED from /repo/src on every run
+   (Generated/Glue.v, tools/rs2v_glue.py) is the model's, function by function, for every digit width, digit count,
+   build mode and operand (no well-formedness hypothesis): an edit of the source that changes what one of these
+   one-line functions delegates to breaks this theorem ---- *)
+From Bnum.Model Require Import Digit Core Shift AddSub Mul Div Bits Pow.
+From Bnum.Generated Require Import Glue.
+From Bnum.Proofs Require Import GlueTie.
+Theorem C02_glue_rs_matches_model :
+  (forall w a b, Glue.U_checked_mul w a b = U_checked_mul w a b) /\
+  (forall w a b, Glue.U_wrapping_mul w a b = U_wrapping_mul w a b) /\
+  (forall w a b, Glue.U_saturating_mul w a b = U_saturating_mul w a b) /\
+  (forall w a e, Glue.U_saturating_pow w a e = U_saturating_pow w a e) /\
+  (forall w a b, Glue.U_strict_mul w a b = U_strict_mul w a b) /\
+  (forall w a e, Glue.U_strict_pow w a e = U_strict_pow w a e) /\
+  (forall w a b, Glue.I_strict_mul w a b = I_strict_mul w a b) /\
+  (forall w a e, Glue.I_strict_pow w a e = I_strict_pow w a e) /\
+  (forall dbg w a b, Glue.U_mul dbg w a b = U_mul dbg w a b) /\
+  (forall dbg w a b, Glue.I_mul dbg w a b = I_mul dbg w a b) /\
+  (forall w a b, Glue.I_checked_mul w a b = I_checked_mul w a b) /\
+  (forall w a b, Glue.I_wrapping_mul w a b = I_wrapping_mul w a b) /\
+  (forall w a e, Glue.I_wrapping_pow w a e = I_wrapping_pow w a e) /\
+  (forall w a b, Glue.I_saturating_mul w a b = I_saturating_mul w a b) /\
+  (forall w a e, Glue.I_saturating_pow w a e = I_saturating_pow w a e) /\
+  (forall w a b, Glue.U_overflowing_mul w a b = U_overflowing_mul w a b) /\
+  (forall w a b, Glue.I_overflowing_mul w a b = I_overflowing_mul w a b).
+Proof. exact glue_mul_matches_model. Qed.
+Print Assumptions C02_glue_rs_matches_model.
